@@ -363,7 +363,7 @@ trait ProcessInterface {
 
         let process_start_time_difference_less_than_3s = |a, b| (a as i64 - b as i64).abs() < 3;
 
-        let cmdline_of_closest_matching_process = self
+        let mut matching_processes: Vec<_> = self
             .processes()
             .iter()
             .filter(|(_, proc)| {
@@ -386,15 +386,20 @@ trait ProcessInterface {
                     if length_of_process_chain == usize::MAX {
                         None
                     } else {
-                        Some((length_of_process_chain, args))
+                        Some((length_of_process_chain, pid, args))
                     }
                 }
                 _ => None,
             })
-            .min_by_key(|(distance, _)| *distance)
-            .map(|(_, result)| result);
+            .collect();
+        // The process table is a hash map: break distance ties by pid so that the choice does
+        // not depend on its iteration order.
+        matching_processes.sort_by_key(|(distance, pid, _)| (*distance, *pid));
 
-        cmdline_of_closest_matching_process
+        matching_processes
+            .into_iter()
+            .next()
+            .map(|(_, _, result)| result)
     }
 }
 
